@@ -16,6 +16,7 @@ package c09
 import (
 	"encoding/xml"
 	"fmt"
+	"go/token"
 	"os"
 	"strings"
 
@@ -39,19 +40,52 @@ func run(r *common.Run) error {
 	} else {
 		c.an = an
 	}
-	if r.Replay != "" {
-		lines, err := common.ReplayLines(r.Replay)
-		if err != nil {
-			return err
+	child, group, err := childFromEnv()
+	if err != nil {
+		return err
+	}
+	if child != nil {
+		// child process: execute one group on the real library, report through the pipe files
+		c.child = child
+		defer child.results.Close()
+		switch group {
+		case "fuzz":
+			c.corpus()
+			c.systematic()
+			c.random()
+		case "scen":
+			c.scenarios()
+		case "nego":
+			c.negotiation()
+		case "minimise":
+			return c.minimise(os.Getenv("C09_MIN"))
+		case "replay":
+			lines, err := common.ReplayLines(os.Getenv("C09_REPLAYFILE"))
+			if err != nil {
+				return err
+			}
+			return c.replay(lines)
+		default:
+			return fmt.Errorf("unknown child group %q", group)
 		}
-		return c.replay(lines)
+		return nil
+	}
+	if r.Replay != "" {
+		return c.runChild("replay", "C09_REPLAYFILE="+r.Replay)
 	}
 	c.primitives()
 	c.skeletons()
-	c.corpus()
-	c.systematic()
-	c.random()
-	return nil
+	r.Mark("case fuzz")
+	if err := c.runChild("fuzz"); err != nil {
+		return err
+	}
+	r.Exhaustive = append(r.Exhaustive, "every single-step mutation (noise child at every position, every attribute dropped/emptied/garbled, every child dropped, every element stripped) of every stanza template and every reply template")
+	r.Mark("case scenarios")
+	if err := c.runChild("scen"); err != nil {
+		return err
+	}
+	r.Mark("case negotiation")
+	return c.runChild("nego")
 }
 
 // primitives ties the kind semantics of the skeleton IR to real Go on the whole finite
@@ -135,6 +169,59 @@ func (c *ctx) primitives() {
 		r.Line(fmt.Sprintf("exec %s %d 9", sk.Encode(), want), obs)
 		r.Case(fmt.Sprintf("current %d", i), true, "primitive")
 	}
+	// length classes: every comparison len(x) op c the translator interprets, and every
+	// constant index / low slice bound, against real Go on slices of length 0..9
+	for length := 0; length <= 9; length++ {
+		sl := make([]int, length)
+		class := length
+		if class > 7 {
+			class = 7
+		}
+		for c := int64(0); c <= 8; c++ {
+			for _, op := range []token.Token{token.EQL, token.NEQ, token.LSS, token.LEQ, token.GTR, token.GEQ} {
+				mask, ok := LenGuardMask(op, c)
+				if !ok {
+					continue
+				}
+				var holds bool
+				switch op {
+				case token.EQL:
+					holds = len(sl) == int(c)
+				case token.NEQ:
+					holds = len(sl) != int(c)
+				case token.LSS:
+					holds = len(sl) < int(c)
+				case token.LEQ:
+					holds = len(sl) <= int(c)
+				case token.GTR:
+					holds = len(sl) > int(c)
+				case token.GEQ:
+					holds = len(sl) >= int(c)
+				}
+				obs := "brk"
+				if holds {
+					obs = "ret"
+				}
+				r.Line(fmt.Sprintf("exec %s %d 9", seq(havoc(0, 0xFF), ifKind(0, mask, ret(), brk())).Encode(), class), obs)
+			}
+			if c <= 6 {
+				obs := "norm"
+				if guard(func() { _ = sl[c] }).panicMsg != "" {
+					obs = "panic:4"
+				}
+				r.Line(fmt.Sprintf("exec %s %d 9", seq(havoc(0, 0xFF), require(0, maskGE(c+1), 4)).Encode(), class), obs)
+			}
+			if c <= 7 {
+				obs := "norm"
+				if guard(func() { _ = sl[c:] }).panicMsg != "" {
+					obs = "panic:5"
+				}
+				r.Line(fmt.Sprintf("exec %s %d 9", seq(havoc(0, 0xFF), require(0, maskGE(c), 5)).Encode(), class), obs)
+			}
+		}
+		r.Case(fmt.Sprintf("lenclass %d", length), true, "primitive")
+	}
+	r.Exhaustive = append(r.Exhaustive, "length classes: len(x) op c for op in ==,!=,<,<=,>,>= and c in 0..8 (where interpreted), x[c], x[c:] on slices of length 0..9")
 	r.Exhaustive = append(r.Exhaustive, "7 dynamic token kinds x 6 assertion targets (unchecked, comma-ok) + nil test; Iter.Current() nil-ness for a child of each of the 5 token classes")
 }
 
@@ -203,10 +290,11 @@ var corpusHelper = [][3]string{
 	{"blocklist.Fetch", "result", `<blocklist xmlns="urn:xmpp:blocking"><item jid="a@b"/><!--c--></blocklist>`},
 	{"bookmarks.Fetch", "result", `<pubsub xmlns="http://jabber.org/protocol/pubsub"><items node="urn:xmpp:bookmarks:1"><item id="a@b"><!--c--></item></items></pubsub>`},
 	{"pubsub.Fetch", "result", `<pubsub xmlns="http://jabber.org/protocol/pubsub"><items node="n"><item id="i1"/><?pi x?></items></pubsub>`},
-	// minimised-by-hand is pending: the three random witnesses of the same wedge, verbatim
-	{"commands.Fetch", "result", `<query xmlns="jabber:iq:roster"><item xmlns="http://jabber.org/protocol/muc#user" block-size="error"><!--c--><query xmlns="jabber:iq:version"/></item></query><iq xmlns="jabber:client" jid="remove" nick="both" from="unavailable"/>`},
-	{"disco.WalkItem", "result", `<query xmlns="http://jabber.org/protocol/disco#items"><item xmlns="urn:xmpp:mam:2" jid="a.example.net" node="n"><?pi x?></item></query><query xmlns="http://jabber.org/protocol/disco#items"><item jid="a.example.net" node="n"><ping xmlns="urn:xmpp:ping" nick="headline"><slot xmlns="urn:xmpp:http:upload:0" status="normal" stamp="get" queryid="set"/> </ping></item></query>`},
-	{"bookmarks.Fetch", "result", `<open xmlns="http://jabber.org/protocol/ibb" url="x" by="remove" hash="x"><x xmlns="" complete="65536"><received xmlns="urn:xmpp:receipts" type="set"/><!--c--></x></open>`},
+	// the same wedge, minimised with the delta-debugging tool (min.go) from three random
+	// witnesses: a rejected token inside a child the iterator has already handed out
+	{"commands.Fetch", "result", `<query xmlns="jabber:iq:roster"><item xmlns="http://jabber.org/protocol/muc#user"><!--c--></item></query>`},
+	{"disco.WalkItem", "result", `<query xmlns="http://jabber.org/protocol/disco#items"><item xmlns="urn:xmpp:mam:2"><?pi x?></item></query>`},
+	{"bookmarks.Fetch", "result", `<open xmlns="http://jabber.org/protocol/ibb"><x xmlns=""><!--c--></x></open>`},
 	// the follow-up page request is answered with an error
 	{"disco.FetchItems", "result", `<query xmlns="http://jabber.org/protocol/disco#items"><item jid="a.example.net"/><set xmlns="http://jabber.org/protocol/rsm"><first>a</first><last>b</last></set></query>`},
 	{"commands.Execute", "error", errPayload},
@@ -241,6 +329,24 @@ func (c *ctx) systematic() {
 			})
 		}
 	}
+	// local faults: the connection's Write fails from every write index on; the application
+	// closes the session at every point of the stanza script
+	for _, seqT := range stanzaTemplates {
+		var st []string
+		for _, s := range seqT {
+			st = append(st, parse(s).String())
+		}
+		w := c.servex("w", 1<<20, st, "fault-none") // clean run: counts the writes
+		if w > 12 {
+			w = 12
+		}
+		for k := 0; k < w; k++ {
+			c.servex("w", k, st, "fault-write")
+		}
+		for k := 0; k <= len(st); k++ {
+			c.servex("c", k, st, "fault-close")
+		}
+	}
 	for _, h := range helpers {
 		for _, t := range h.templates {
 			c.helper(h, "result", t, "template")
@@ -260,7 +366,6 @@ func (c *ctx) systematic() {
 			c.helper(h, "error", m.String(), "err-single-"+class)
 		})
 	}
-	c.r.Exhaustive = append(c.r.Exhaustive, "every single-step mutation (noise child at every position, every attribute dropped/emptied/garbled, every child dropped, every element stripped) of every stanza template and every reply template")
 }
 
 // random: multi-step mutations of the templates and free-form stanzas.
@@ -301,6 +406,14 @@ func (c *ctx) random() {
 			in = in[:rnd.Intn(len(in)+1)] // truncated input
 		case 2:
 			in += "<"
+		}
+		if rnd.Chance(1, 5) {
+			if rnd.Bool() {
+				c.servex("w", rnd.Intn(6), parts, "random-fault-write")
+			} else {
+				c.servex("c", rnd.Intn(len(parts)+1), parts, "random-fault-close")
+			}
+			continue
 		}
 		c.serve(in, "random")
 	}
